@@ -232,4 +232,152 @@ theorem pinned_bundle_incomplete :
         [(toOCIPlatform "amd64".toList, 0), (toOCIPlatform "arm/v6".toList, 1), (toOCIPlatform "arm/v7".toList, 2)]) := by
   decide
 
+/-! ## the image config mirrors the configuration -/
+
+/-- T env_defaults: `Env` is sorted, holds every declared pair, holds the PATH / SSL_CERT_FILE
+default (generated constants) exactly when that key is not declared, and nothing else -/
+theorem env_defaults (env : List (Text × Text)) : Spec.EnvOk env (Impl.envList env) := by
+  have hmiss : ∀ d, d ∈ missingDefaults env ↔ d ∈ envDefaults ∧ d.1 ∉ keysOf env := by
+    intro d; simp [missingDefaults, List.mem_filter]
+  refine ⟨sortText_sorted _, ?_, ?_, ?_, ?_⟩
+  · intro kv hkv
+    exact mem_sortText.mpr (List.mem_map.mpr ⟨kv, List.mem_append_left _ hkv, rfl⟩)
+  · intro d hd hk
+    exact mem_sortText.mpr (List.mem_map.mpr ⟨d, List.mem_append_right _ ((hmiss d).mpr ⟨hd, hk⟩), rfl⟩)
+  · intro s hs
+    obtain ⟨kv, hkv, rfl⟩ := List.mem_map.mp (mem_sortText.mp hs)
+    rcases List.mem_append.mp hkv with h | h
+    · exact Or.inl (List.mem_map.mpr ⟨kv, h, rfl⟩)
+    · exact Or.inr ⟨kv, ((hmiss kv).mp h).1, ((hmiss kv).mp h).2, rfl⟩
+  · simp [Impl.envList, sortText, missingDefaults]
+
+/-- the iteration order of the environment map does not matter -/
+theorem env_order_independent {env env' : List (Text × Text)} (h : env.Perm env') :
+    Impl.envList env = Impl.envList env' := by
+  have hk : missingDefaults env = missingDefaults env' := by
+    unfold missingDefaults
+    apply List.filter_congr
+    intro d _
+    have : (keysOf env).contains d.1 = (keysOf env').contains d.1 := by
+      apply Bool.eq_iff_iff.mpr
+      rw [List.contains_iff_mem, List.contains_iff_mem]
+      exact (h.map (·.1)).mem_iff
+    rw [this]
+  unfold Impl.envList
+  rw [hk]
+  exact sortText_perm_eq ((h.append_right _).map _)
+
+theorem volumes_mapping (vs : List Text) : Spec.VolumesOk vs (Impl.volumes vs) := by
+  refine ⟨sortText_sorted _, ?_, ?_, ?_⟩
+  · exact (sortText_perm _).nodup_iff.mpr (nodup_dedup vs)
+  · intro v hv; exact mem_dedup.mp (mem_sortText.mp hv)
+  · intro v hv; exact mem_sortText.mpr (mem_dedup.mpr hv)
+
+theorem label_keys_distinct : keySource ≠ keyRevision ∧ keySource ≠ keyCreated ∧ keyRevision ≠ keyCreated := by decide
+
+theorem mem_annotationMap (ic : ImageCfg) (created : Text) (kv : Text × Text) :
+    kv ∈ Impl.annotationMap ic created ↔ Spec.expectedLabel ic created kv := by
+  obtain ⟨h1, h2, h3⟩ := label_keys_distinct
+  unfold Impl.annotationMap Spec.expectedLabel
+  cases cutAt '@' ic.vcsUrl with
+  | none =>
+    simp only [mem_setKV]
+  | some uh =>
+    simp only [mem_setKV]
+    constructor
+    · rintro (h | ⟨(h | ⟨(h | ⟨h, h5⟩), h6⟩), h7⟩)
+      · exact Or.inl h
+      · exact Or.inr (Or.inr (Or.inl h))
+      · exact Or.inr (Or.inl h)
+      · exact Or.inr (Or.inr (Or.inr ⟨h, h7, h5, h6⟩))
+    · rintro (h | h | h | ⟨h, h7, h5, h6⟩)
+      · exact Or.inl h
+      · exact Or.inr ⟨Or.inr ⟨Or.inl h, by rw [h]; exact h1⟩, by rw [h]; exact h2⟩
+      · exact Or.inr ⟨Or.inl h, by rw [h]; exact h3⟩
+      · exact Or.inr ⟨Or.inr ⟨Or.inr ⟨h, h5⟩, h6⟩, h7⟩
+
+/-- labels = declared annotations, overridden by the vcs source / revision (when vcs-url has an `@`)
+and the creation time; encoded with sorted, distinct keys -/
+theorem labels_mapping (ic : ImageCfg) (created : Text) (hnd : (keysOf ic.annotations).Nodup) :
+    Spec.LabelsOk ic created (Impl.labels ic created) := by
+  have hperm := List.mergeSort_perm (Impl.annotationMap ic created) leKey
+  have hmem : ∀ kv, kv ∈ Impl.labels ic created ↔ Spec.expectedLabel ic created kv := by
+    intro kv; rw [← mem_annotationMap]; exact List.mem_mergeSort
+  refine ⟨sortKey_sorted _, ?_, fun kv h => (hmem kv).mp h, ?_, ?_, fun kv _ h => (hmem kv).mpr h⟩
+  · apply ((hperm.map _).nodup_iff (l₂ := keysOf (Impl.annotationMap ic created))).mpr
+    unfold Impl.annotationMap
+    cases cutAt '@' ic.vcsUrl with
+    | none => exact keys_setKV_nodup hnd _ _
+    | some uh => exact keys_setKV_nodup (keys_setKV_nodup (keys_setKV_nodup hnd _ _) _ _) _ _
+  · exact (hmem _).mpr (Or.inl rfl)
+  · unfold Spec.VcsLabelsOk
+    split
+    · next uh hc =>
+      refine ⟨(hmem _).mpr ?_, (hmem _).mpr ?_⟩
+      · unfold Spec.expectedLabel; rw [hc]; exact Or.inr (Or.inl rfl)
+      · unfold Spec.expectedLabel; rw [hc]; exact Or.inr (Or.inr (Or.inl rfl))
+    · trivial
+
+/-- T config_mapping: whenever BuildImageFromLayers succeeds, its config has the declared entrypoint
+(shell fragment → `/bin/sh -c <fragment>`, else the shlex tokens of the command), cmd, working
+directory, stop signal, user, volumes, environment, labels, author, os, creation time and the
+platform of the architecture — for every `shlex` -/
+theorem config_mapping (shlex : Text → Option (List Text)) (ic : ImageCfg) (created arch : Text)
+    (o : OciConfig) (hnd : (keysOf ic.annotations).Nodup)
+    (h : Impl.buildConfig shlex ic created arch = some o) : Spec.ConfigOk shlex ic created arch o := by
+  unfold Impl.buildConfig at h
+  split at h
+  · next ep cmd hep hcmd =>
+    simp only [Option.some.injEq] at h
+    subst h
+    refine ⟨⟨?_, ?_⟩, env_defaults _, volumes_mapping _, labels_mapping ic created hnd, ?_⟩
+    · unfold Impl.entrypoint at hep
+      split
+      · next hs => rw [if_pos hs] at hep; simp only [Option.some.injEq] at hep; rw [← hep, tie_shell_prefix]; rfl
+      · next hs =>
+        rw [if_neg hs] at hep
+        split
+        · next hc => rw [if_pos hc] at hep; exact hep
+        · next hc => rw [if_neg hc] at hep; simp only [Option.some.injEq] at hep; exact hep.symm
+    · unfold Impl.cmd at hcmd
+      split
+      · next hc => rw [if_pos hc] at hcmd; exact hcmd
+      · next hc => rw [if_neg hc] at hcmd; simp only [Option.some.injEq] at hcmd; exact hcmd.symm
+    · have := tie_author_os
+      refine ⟨rfl, rfl, rfl, ?_, ?_, rfl, rfl, rfl⟩
+      · show Generated.cfgAuthor.toList = _; rw [this.1]
+      · show Generated.cfgOS.toList = _; rw [this.2]
+  · cases h
+
+/-- the build fails only when shlex rejects a string it is given -/
+theorem buildConfig_none_iff (shlex : Text → Option (List Text)) (ic : ImageCfg) (created arch : Text) :
+    Impl.buildConfig shlex ic created arch = none ↔
+      (ic.epShell = [] ∧ ic.epCmd ≠ [] ∧ shlex ic.epCmd = none) ∨ (ic.cmd ≠ [] ∧ shlex ic.cmd = none) := by
+  unfold Impl.buildConfig Impl.entrypoint Impl.cmd
+  by_cases h1 : ic.epShell = [] <;> by_cases h2 : ic.epCmd = [] <;> by_cases h3 : ic.cmd = [] <;>
+    simp [h1, h2, h3] <;> (try cases shlex ic.epCmd <;> simp) <;> (try cases shlex ic.cmd <;> simp)
+
+/-- the oracle the driver executes is the specification -/
+theorem configVerdict_pass_iff (shlex : Text → Option (List Text)) (ic : ImageCfg) (created arch : Text)
+    (o : OciConfig) : Spec.configVerdict shlex ic created arch o = "pass" ↔ Spec.ConfigOk shlex ic created arch o := by
+  unfold Spec.configVerdict Spec.ConfigOk
+  by_cases a : Spec.EntrypointOk shlex ic o <;> by_cases b : Spec.EnvOk ic.env o.env <;>
+    by_cases c : Spec.VolumesOk ic.volumes o.volumes <;> by_cases d : Spec.LabelsOk ic created o.labels <;>
+    by_cases e : Spec.ScalarsOk ic created arch o <;> simp [a, b, c, d, e]
+
+/-- the specification is satisfiable by a non-trivial configuration (and the model computes it) -/
+example : Spec.configVerdict (fun s => some [s])
+    { epCmd := "/usr/bin/app".toList, env := [("A".toList, "1".toList)], vcsUrl := "https://x@abc".toList,
+      annotations := [("k".toList, "v".toList)], volumes := ["/data".toList] }
+    "1970-01-01T00:00:00Z".toList "arm/v7".toList
+    { entrypoint := ["/usr/bin/app".toList], cmd := [], workingDir := [], stopSignal := [], user := [],
+      volumes := ["/data".toList],
+      env := ["A=1".toList, "PATH=/usr/local/sbin:/usr/local/bin:/usr/bin:/usr/sbin:/sbin:/bin".toList,
+              "SSL_CERT_FILE=/etc/ssl/certs/ca-certificates.crt".toList],
+      labels := [("k".toList, "v".toList), (keyCreated, "1970-01-01T00:00:00Z".toList),
+                 (keyRevision, "abc".toList), (keySource, "https://x".toList)],
+      author := "github.com/chainguard-dev/apko".toList, os := "linux".toList,
+      created := "1970-01-01T00:00:00Z".toList, architecture := "arm".toList, variant := "v7".toList } = "pass" := by
+  decide
+
 end Apko.C12
